@@ -18,6 +18,10 @@ compared with the reference.  A malformed stream (truncated / corrupted valid fi
 
 Every history is run with the real `_INITIAL_MMAP_SIZE` and with the module constant patched to 64 (growth is cheap to reach).
 
+Several readers alive at once: read_all_values_from_file() returns a lazy iterator; several of them (same file, different
+files) are opened and advanced interleaved in every order (two readers: exhaustively; three/four: seeded random); each must
+yield what its own file holds (C10:concurrent-readers-mismatch, C10:concurrent-reader-raises).
+
 Signatures: C10:reader-mismatch (read_all_values on the handle), C10:file-reader-mismatch (read_all_values_from_file),
 C10:read-value-mismatch, C10:raises (an operation or the constructor raised), C10:reader-raises (a reader raised).
 """
@@ -800,6 +804,201 @@ def run_recreated(ctx, md, tmp):
     ctx.extra['recreated_file_reads'] = n
 
 
+# ------------------------------------------------------------------------------------------------- several readers alive at once
+def reader_file_specs(rng, real_size, n_random):
+    """(name, initial size | None for a created-but-unsized file, history) of store files with known contents"""
+    W = dict(WITNESS_BITS)
+    v1, t1, v2, t2 = W['pi'], W['unix-ts'], W['qnan-neg-payload'], W['snan-payload']
+    ks = ['["requests", "requests_total", {"path": "/%s"}, "help"]' % p for p in ('a', 'b', 'cé')]
+    specs = [
+        ('small-a', SMALL, [['w', ks[0], v1, t1], ['w', ks[1], v2, t2], ['w', ks[2], W['-0'], W['one']], ['w', ks[0], W['neg'], 0]]),
+        ('small-b', SMALL, [['w', ks[2], W['one'], t2], ['w', ks[0], W['+inf'], 0], ['w', ks[1], W['min-subnormal'], t1]]),  # same keys
+        ('other-keys', SMALL, [['w', 'x', v2, t1], ['r', ''], ['o'], ['w', '€uro', t1, v1]]),
+        ('two-pages', real_size, [['w', 'p%03d' % i + 'é' * 60, v1 + i, t1 + i] for i in range(40)]),   # used > one page
+        ('header-only', SMALL, []),
+        ('created-unsized', None, []),                                                                     # zero-length file
+        ('beyond-initial-size', real_size, [['w', 'small', v1, t1], ['w', {'u': 'a', 'n': 70000}, v2, t2], ['w', 'tail', t1, v1]]),
+    ]
+    for i in range(n_random):
+        specs.append(('random-%d' % i, rng.choice((SMALL, SMALL, real_size)), gen_history(rng, SMALL, 12)))
+    return specs
+
+
+def build_reader_files(md, tmp, specs):
+    """writes the files; returns (paths, expected entries per file as (key, vbits, tbits) tuples)"""
+    d = os.path.join(tmp, 'readers')
+    os.makedirs(d, exist_ok=True)
+    paths, want = [], []
+    for i, (name, init, ops) in enumerate(specs):
+        p = os.path.join(d, 'counter_%d.db' % (100 + i))
+        if init is None:
+            if os.path.exists(p):
+                os.unlink(p)
+            open(p, 'wb').close()
+        else:
+            res = run_real(md, p, init, ops)
+            if res.err is not None:
+                raise lib.Infra('C10 readers: building file %s raised %s' % (name, res.err[2]))
+        paths.append(p)
+        want.append(tuple(ref_states(ops)[0][-1]))
+    return paths, want
+
+
+def run_schedule(md, paths, sched):
+    """sched: ['o', reader, file] opens a reader iterator, ['n', reader, count] advances it by up to `count` entries, ['d', reader]
+    drains it; whatever is still open at the end is drained in reader order.  Returns {reader: [file, entries, error | None]}
+    and the largest number of iterators that were alive (opened, not exhausted) at the same time"""
+    its, got, alive = {}, {}, 0
+
+    def advance(r, n):
+        it = its.get(r)
+        while it is not None and (n is None or n > 0):
+            try:
+                k, v, t, _ = next(it)
+                got[r][1].append((k, fb(v), fb(t)))
+            except StopIteration:
+                its[r] = it = None
+            except Exception as e:  # noqa: the class is the observation
+                got[r][2] = '%s: %s' % (errname(e), str(e)[:120])
+                its[r] = it = None
+            if n is not None:
+                n -= 1
+
+    for a in sched:
+        if a[0] == 'o':
+            if a[1] in got:
+                continue
+            got[a[1]] = [a[2], [], None]
+            try:
+                its[a[1]] = iter(md.MmapedDict.read_all_values_from_file(paths[a[2]]))
+            except Exception as e:  # noqa
+                got[a[1]][2] = 'read_all_values_from_file() itself raised %s: %s' % (errname(e), str(e)[:120])
+                its[a[1]] = None
+            alive = max(alive, sum(1 for x in its.values() if x is not None))
+        elif a[1] in got:
+            advance(a[1], a[2] if a[0] == 'n' else None)
+    for r in sorted(got):
+        advance(r, None)
+    return got, alive
+
+
+def short_sched(sched, names):
+    out = []
+    for a in sched:
+        out.append('open #%d on %s' % (a[1], names[a[2]]) if a[0] == 'o' else
+                   'next(#%d)x%d' % (a[1], a[2]) if a[0] == 'n' else 'drain #%d' % a[1])
+    return ', '.join(out)
+
+
+def schedule_oracle(md, paths, want, names, sched):
+    """None, or (signature, description): every reader iterator yields what ITS file held when it was opened"""
+    got, alive = run_schedule(md, paths, sched)
+    head = 'reader iterators alive at once [%s; the rest drained in order]: ' % short_sched(sched, names)
+    for r in sorted(got):
+        f, items, err = got[r]
+        if err is not None:
+            return 'C10:concurrent-reader-raises', head + 'reader #%d of file %s raised %s after %d of %d entries' % (
+                r, names[f], err, len(items), len(want[f]))
+        if tuple(items) != want[f]:
+            return 'C10:concurrent-readers-mismatch', head + 'reader #%d of file %s yields %s, the file holds %s' % (
+                r, names[f], short_triples(triples_str(items)), short_triples(triples_str(want[f])))
+    return None
+
+
+def merges(a, b):
+    """every interleaving of the action lists a and b (each kept in order)"""
+    n = len(a) + len(b)
+    for pos in itertools.combinations(range(n), len(a)):
+        ps, ia, ib, out = set(pos), 0, 0, []
+        for i in range(n):
+            if i in ps:
+                out.append(a[ia])
+                ia += 1
+            else:
+                out.append(b[ib])
+                ib += 1
+        yield out
+
+
+def run_readers(ctx, md, tmp, real_size, only=None):
+    """LAZY READERS: read_all_values_from_file() returns an iterator, and a caller may hold several of them (one per worker
+    file, merged entry by entry) before consuming any.  Several iterators — on the same file and on different files, small
+    ones, one whose entries span two pages, one beyond the initial size, an empty and an unsized one — are opened and advanced
+    interleaved: for two readers EVERY interleaving of (open, next, next, drain) x (open, next, next, drain) over every
+    ordered pair of files, for three and four readers seeded random interleavings.  Oracle: each iterator yields exactly what
+    its own file holds (seeded change C10-17: a module-level scratch buffer shared by all iterators)."""
+    if only is not None:
+        specs, scheds = only['files'], [only['schedule']]
+        specs = [(s['name'], s['init'], s['ops']) for s in specs]
+    else:
+        quick = ctx.tier == 'quick'
+        specs = reader_file_specs(ctx.rng, real_size, 3 if quick else 12)
+        scheds = []
+        nf = len(specs)
+        for fa in range(nf):
+            for fb_ in range(nf):
+                a = [['o', 0, fa], ['n', 0, 1], ['n', 0, 1], ['d', 0]]
+                b = [['o', 1, fb_], ['n', 1, 1], ['n', 1, 1], ['d', 1]]
+                scheds.extend(merges(a, b))
+        for _ in range((300 if quick else 5000) * (3 if ctx.broken else 1)):
+            lists = []
+            for r in range(ctx.rng.choice((3, 3, 4))):
+                acts = [['o', r, ctx.rng.randrange(nf)]]
+                for _ in range(ctx.rng.randrange(0, 4)):
+                    acts.append(['n', r, ctx.rng.choice((1, 1, 2, 5, 1000))])
+                if ctx.rng.random() < 0.5:
+                    acts.append(['d', r])
+                lists.append(acts)
+            out = []
+            while any(lists):
+                l = ctx.rng.choice([x for x in lists if x])
+                out.append(l.pop(0))
+            scheds.append(out)
+    paths, want = build_reader_files(md, tmp, specs)
+    names = [s[0] for s in specs]
+    # the model's reader on the same bytes (read alone)
+    lines = []
+    for p in paths:
+        with open(p, 'rb') as fp:
+            raw = fp.read()
+        u = struct.unpack_from('<i', raw, 0)[0] if len(raw) >= 4 else 0
+        n = max(len(raw.rstrip(b'\x00')), min(max(u, 8), len(raw)))      # without the zero tail, but as long as the header says
+        lines.append('c10 readfile %d x:%s' % (PAGE, raw[:n].hex()))
+    replies = drv(ctx, lines)
+    if replies is not None:
+        for i, rep in enumerate(replies):
+            ctx.traces += 1
+            if rep != 'ok ' + triples_str(want[i]) and rep != 'ok !Timeout':
+                ctx.diverge('file %s read alone: model reader %s, written was %s' % (
+                    names[i], short_triples(rep, 200), short_triples(triples_str(want[i]), 200)),
+                    {'kind': 'readers', 'files': [{'name': specs[i][0], 'init': specs[i][1], 'ops': specs[i][2]}], 'schedule': [['o', 0, 0]]})
+    failed = 0
+    for sched in scheds:
+        bad = schedule_oracle(md, paths, want, names, sched)
+        files_used = sorted({a[2] for a in sched if a[0] == 'o'})
+        ctx.case(('readers', tuple(names[f] for f in files_used), hashlib.sha1(repr(sched).encode()).hexdigest()[:16]),
+                 {'kind': 'readers', 'files': [names[f] for f in files_used], 'schedule': short_sched(sched, names)})
+        ctx.count('stream-readers-alive-at-once')
+        ctx.count('readers-in-schedule=%d' % sum(1 for a in sched if a[0] == 'o'))
+        if bad:
+            failed += 1
+            if failed > 3:
+                continue
+            sig = bad[0]
+            small = lib.shrink_list(sched, lambda c: (schedule_oracle(md, paths, want, names, c) or ('',))[0] == sig, max_rounds=60)
+            again = schedule_oracle(md, paths, want, names, small)
+            if again is None or again[0] != sig:
+                small, again = sched, bad
+            used = sorted({a[2] for a in small if a[0] == 'o'})
+            remap = {f: i for i, f in enumerate(used)}
+            case = {'kind': 'readers',
+                    'files': [{'name': specs[f][0], 'init': specs[f][1], 'ops': specs[f][2]} for f in used],
+                    'schedule': [[a[0], a[1], remap[a[2]]] if a[0] == 'o' else list(a) for a in small if a[0] != 'o' or a[2] in remap]}
+            ctx.fail(sig, again[1], case)
+    ctx.extra['reader_schedules'] = len(scheds)
+    shutil.rmtree(os.path.join(tmp, 'readers'), ignore_errors=True)
+
+
 def sanity():
     for b in (0x7ff0000000000001, 0xfff7ffffffffffff, 0x7ff8000000000abc, 0x8000000000000000):
         if fb(bf(b)) != b:
@@ -822,7 +1021,7 @@ def run(ctx):
                 'class incl. quiet/signalling NaN payloads of both signs, -0.0, subnormals, keys forcing 1/2/5 doublings, 70 KB/140 KB/300 KB keys at '
                 'the real size), every history of length %d over a 6-operation alphabet at size %d, and seeded random histories of up to 60 '
                 'operations over random keys (0..3000 bytes, all widths) and random bit patterns; plus truncated/corrupted files for the two '
-                'readers. A case is non-trivial when the history has at least one write; distinct by (initial size, operation list)'
+                'readers; several lazy file-reader iterators alive at once, advanced in every interleaving. A case is non-trivial when the history has at least one write; distinct by (initial size, operation list)'
                 % (real_size, SMALL, depth, SMALL))
     tmp = tempfile.mkdtemp(prefix='pv-c10-')
     try:
@@ -836,6 +1035,7 @@ def run(ctx):
         ctx.extra['exhaustive_space'] = 'all %d histories of length %d over 6 operations at initial size %d' % (6 ** depth, depth, SMALL)
         run_malformed(ctx, md, tmp)
         run_recreated(ctx, md, tmp)
+        run_readers(ctx, md, tmp, real_size)
         done = 0
         while done < n_random and time.time() - ctx.t0 < budget:
             batch = []
@@ -878,7 +1078,11 @@ def replay(ctx, case):
             for sig, what in cc.f:
                 print('REPLAY-FAIL', sig, what)
             return 1 if cc.f else 0
-        if c.get('kind') == 'malformed':
+        if c.get('kind') == 'readers':
+            print('REPLAY files %s' % ', '.join('%s (initial size %s): [%s]' % (f['name'], f['init'], short_ops(f['ops'], 8)) for f in c['files']))
+            print('REPLAY schedule: %s' % short_sched(c['schedule'], [f['name'] for f in c['files']]))
+            run_readers(ctx, md, tmp, real_size, only=c)
+        elif c.get('kind') == 'malformed':
             raw = bytes.fromhex(c['hex'])
             p = os.path.join(tmp, 'm.db')
             with open(p, 'wb') as fp:
